@@ -1210,6 +1210,18 @@ def c11(R, ctx):
             R.violation("c11:stream-" + r.split(" ")[1], "events_to_objs on a stream of %d messages: %s" % (len(s_[3]["parts"]), r[:300]),
                         {"parts_hex": [h(p) for p in s_[3]["parts"]], "result": r, "how": "harness/impl_worker.py: " + q[:120] + "..."})
     R.coverage["stream_object_lists_checked"] = sok
+    # events_to_objs of decoded streams: Model/Object.v (separate_events, pairing, events_to_obj) against common/object.py
+    oreqs2 = ["sevobj cur %s" % h(s_[2]) for s_ in streams]
+    oimpl2 = common.run_impl("impl_worker", oreqs2)
+    omodel2 = common.run_model(oreqs2) if ctx["driver_ok"] else oimpl2
+    obad2 = [k for k in range(len(oreqs2)) if oimpl2[k] != omodel2[k]]
+    R.coverage.update({"events_to_objs_cases": len(oreqs2), "events_to_objs_disagreements": len(obad2),
+                       "events_to_objs_nontrivial": sum(1 for x in oimpl2 if x not in ("None", "CRASH"))})
+    for k in obad2:
+        R.violation("correspondence:C11-sevobj", "model and implementation events_to_objs differ for `%s`" % oreqs2[k][:200],
+                    {"request": oreqs2[k], "implementation": oimpl2[k][:2000], "model": omodel2[k][:2000],
+                     "theorem": "C11_stream_events_rebuild_the_objects_of_its_messages / correspondence events_to_objs"}, found_input=False)
+        break
     R.coverage["stream_messages"] = dict(Counter(len(s_[3]["parts"]) for s_ in streams))
     r1, _ = engine(R, ctx, cases, modes=("1",))
     distribution(R, cases, r1["1"][1])
